@@ -218,7 +218,7 @@ public:
       else
       {
          // switch items
-         UnrefItem();
+         ConstRef oldItemHolder; oldItemHolder._item.SwapContents(_item);  // keeps our old item alive until we've ref'd the new one (below), in case the old item holds the only other reference to the new one
          _item.SetPointerAndBits(item, BooleansToBitChord((item!=NULL), doRefCount));
          RefItem();
       }
